@@ -133,7 +133,7 @@ Definition ex_hist : list op :=
    OSnapshot; ODelegate 2 100 (- (6 * U)); ORevert 0;
    ODelegate 3 200 (- U);
    OCreate 400 2 1 (3 * U) 3;
-   OSnapshot; ORemove 400; OCreate 400 1 0 U 1; ORevert 0;
+   OSnapshot; ORemove 400; OCreate 400 1 0 U 1; ORevert 1;
    ORemove 400; OList;
    ORoot].
 Example C08_nonvacuous_safe_history :
